@@ -4,6 +4,8 @@
 From Coq Require Import List ZArith Bool Arith String.
 Import ListNotations.
 Require Import DH.C14_Timeout.Model DH.C14_Timeout.Lemmas DH.C14_Timeout.Check DH.C14_Timeout.Lemmas2.
+Require Import DH.C14_Timeout.Global DH.C14_Timeout.GlobalBase DH.C14_Timeout.GlobalInv DH.C14_Timeout.GlobalRefine DH.C14_Timeout.GlobalSafety
+  DH.C14_Timeout.GlobalLive DH.C14_Timeout.GlobalOracle DH.C14_Timeout.Accept DH.C14_Timeout.AcceptLemmas.
 Require DH.Generated.Facts_C14.
 
 (* the numeric status codes of the model are the ones of the source's JobStatus enum (regenerated on every run) *)
@@ -67,4 +69,174 @@ Example C14_example :
      J 0 FReturn; J 1 (Poll RUNNING); J 1 (W CANCELLING); J 1 (Poll CANCELLING); Sentinel; Sentinel; J 1 FReturn; J 1 (W CANCELLED);
      J 2 (W RUNNING); J 2 FStart; J 2 (W CANCELLING); J 2 (Poll CANCELLING); J 2 FReturn; J 2 (W CANCELLED); J 0 (W DONE)]
     [(0, 10%Z); (1, 11%Z); (2, 12%Z)] [(0, DONE, 10%Z); (1, CANCELLED, 11%Z); (2, CANCELLED, 12%Z)] (-1)%Z 0 = None.
+Proof. vm_compute. reflexivity. Qed.
+
+
+(* ====================================================================================================================
+   The GLOBAL model (Global.v): all jobs, the worker semaphore, the time budget, the main thread's phase, the rows.
+   [grun c (ginit w b) tr = Some g]: the schedule tr (ANY list of events: submissions, gather / close calls, the event
+   loop's steps on each job, the run-functions' start / poll / return, the expiry of the budget, sentinels) is possible
+   from the initial state with w workers and budget b, and leads to g.  No bound on jobs, workers or length.
+   c = (strict, fixed, fc): strict = sharp deadline; fixed = close() repaired (F53); fc = the F_CANCELLED output.
+   ==================================================================================================================== *)
+
+(* (a) refinement: without close()-kills, the events of every job in a global run are a run of the per-job status automaton,
+   ending in the job's (status, started, returned, history) - so C14_forward_only ... C14_cancelled_after_return apply *)
+Theorem C14_global_refines_job_automaton : forall c w b tr g j,
+  grun c (ginit w b) tr = Some g -> nokill tr = true ->
+  jrun jinit (proj j (otrace c (ginit w b) tr)) = Some (abs g j).
+Proof. exact refinement. Qed.
+Print Assumptions C14_global_refines_job_automaton.
+
+(* (a') every schedule, close()-kills included: a job's observed writes start with READY and only move forward *)
+Theorem C14_global_writes_forward : forall c w b tr g j,
+  grun c (ginit w b) tr = Some g ->
+  is_path (ws_of (proj j (otrace c (ginit w b) tr))) = true /\ starts_ready (ws_of (proj j (otrace c (ginit w b) tr))) = true.
+Proof. exact writes_forward. Qed.
+Print Assumptions C14_global_writes_forward.
+
+(* (b) once close() has returned (so also once search() has): as many rows as jobs; every job is terminal and has exactly
+   one row, with its status; a collected job's row holds the value its run-function returned (and it did run); a job killed
+   by close() is CANCELLED with the failure output.  Needs the repaired close() or a run in which close() kills nothing. *)
+Theorem C14_returned_every_job_reported_once : forall c w b tr g,
+  grun c (ginit w b) tr = Some g -> closed_phase (phase g) = true -> fixed c = true \/ nokill tr = true ->
+  List.length (rows g) = List.length (jobs g) /\
+  forall j jb, getj g j = Some jb ->
+    (terminal (jstat jb) = true /\
+     exists v, lookup_row j (rows g) = [(jstat jb, v)] /\
+               (jph jb = TGathered -> jret jb = Some v /\ jstarted jb = true) /\
+               (jph jb = TKilled -> jstat jb = CANCELLED /\ v = fc c)) /\
+    (nokill tr = true -> jph jb = TGathered).
+Proof. exact closed_all_reported. Qed.
+Print Assumptions C14_returned_every_job_reported_once.
+
+(* today's close() (fixed = false): the schedule of finding F53 ends with a job in CANCELLING for ever and without a row *)
+Theorem C14_close_while_cancelling_refuted :
+  exists g jb, grun today (ginit 2 (Some BEval)) f53_schedule = Some g /\ phase g = PDone /\ getj g 1 = Some jb /\
+               jstat jb = CANCELLING /\ terminal (jstat jb) = false /\ lookup_row 1 (rows g) = [] /\
+               List.length (rows g) = 1 /\ List.length (jobs g) = 2.
+Proof. exact close_forgets_cancelling_job. Qed.
+Print Assumptions C14_close_while_cancelling_refuted.
+
+(* (c) sharp deadline.  A job whose run-function had NOT returned when the budget ran out - it holds a worker, or it is
+   still queued - is never DONE; once collected its writes are exactly READY, RUNNING, CANCELLING, CANCELLED: it does get a
+   worker and its run-function does run (this is what the code does with a job queued at the expiry: it is started and told
+   to cancel at once), and the value it returned is in its CANCELLED row. *)
+Theorem C14_not_returned_at_expiry_is_cancelled : forall c w b tr1 tr2 g1 g j jb1,
+  strict c = true ->
+  grun c (ginit w b) tr1 = Some g1 -> grun c g1 (EExpire :: tr2) = Some g ->
+  getj g1 j = Some jb1 -> jret jb1 = None -> jph jb1 = TQueued \/ jph jb1 = TWaiting ->
+  exists jb, getj g j = Some jb /\ jstat jb <> DONE /\
+    (jph jb = TGathered ->
+       jhist jb = [READY; RUNNING; CANCELLING; CANCELLED] /\ jstat jb = CANCELLED /\ jstarted jb = true /\
+       exists v, jret jb = Some v /\ lookup_row j (rows g) = [(CANCELLED, v)]).
+Proof. exact not_returned_at_expiry. Qed.
+Print Assumptions C14_not_returned_at_expiry_is_cancelled.
+
+(* ... and a job whose run-function HAD returned (and that was not told to cancel by an earlier budget) ends DONE with that value *)
+Theorem C14_returned_before_expiry_is_done : forall c w b tr1 tr2 g1 g j jb1 v,
+  strict c = true ->
+  grun c (ginit w b) tr1 = Some g1 -> grun c g1 (EExpire :: tr2) = Some g ->
+  getj g1 j = Some jb1 -> jret jb1 = Some v -> jstat jb1 = RUNNING \/ jstat jb1 = DONE ->
+  exists jb, getj g j = Some jb /\ jret jb = Some v /\
+    (jph jb <> TKilled -> jstat jb = RUNNING \/ jstat jb = DONE) /\
+    (jph jb = TGathered -> jstat jb = DONE /\ ~ In CANCELLING (jhist jb) /\ lookup_row j (rows g) = [(DONE, v)]).
+Proof. exact returned_before_expiry. Qed.
+Print Assumptions C14_returned_before_expiry_is_done.
+
+(* ... and a job that close() kills while it is still queued never starts: READY, CANCELLED *)
+Theorem C14_killed_while_queued_never_starts : forall c w b tr1 tr2 g1 g j jb1,
+  grun c (ginit w b) tr1 = Some g1 -> getj g1 j = Some jb1 -> jph jb1 = TQueued -> grun c g1 (EKill j :: tr2) = Some g ->
+  exists jb, getj g j = Some jb /\ jstarted jb = false /\ jhist jb = [READY; CANCELLED] /\ jstat jb = CANCELLED.
+Proof. exact killed_while_queued_never_starts. Qed.
+Print Assumptions C14_killed_while_queued_never_starts.
+
+(* (d) after the expiry, the first stop test ends the submissions of this search() call (at most the batch whose stop test
+   came just before the expiry is still submitted) *)
+Theorem C14_no_submit_after_stop_test : forall c g0 tr1 a b g,
+  grun c g0 (tr1 ++ EExpire :: a ++ ETest :: b) = Some g -> noagain (a ++ ETest :: b) = true -> ~ In ESubmit b.
+Proof. exact no_submit_after_the_test. Qed.
+Print Assumptions C14_no_submit_after_stop_test.
+
+(* (d) close() - hence search() - returns only after every job's run-function has started and returned; afterwards no
+   run-function event is possible *)
+Theorem C14_search_returns_after_run_functions : forall c w b tr g,
+  grun c (ginit w b) tr = Some g -> closed_phase (phase g) = true -> nokill tr = true ->
+  forall j jb, getj g j = Some jb ->
+    jstarted jb = true /\ jret jb <> None /\
+    gstep c g (EStart j) = None /\ gstep c g (EPoll j) = None /\ (forall v, gstep c g (ERet j v) = None).
+Proof. exact returns_after_the_functions. Qed.
+Print Assumptions C14_search_returns_after_run_functions.
+
+(* (e) no deadlock: from every reachable state there is a continuation in which search() returns; unless close() is already
+   under way it kills no job (the run-functions return - after CANCELLING where they were told - and are collected) *)
+Theorem C14_no_deadlock : forall c w b tr g, 0 < w -> grun c (ginit w b) tr = Some g ->
+  exists tr' g', grun c g tr' = Some g' /\ phase g' = PDone /\ (phase g <> PClosing -> nokill tr' = true).
+Proof. exact reachable_no_deadlock. Qed.
+Print Assumptions C14_no_deadlock.
+
+(* (f) the oracle raises no alarm on any complete run of the model.  Timing assumption, explicit: IF the schedule has two
+   sentinels, then at the second one no started run-function is still running un-told (jph = TWaiting), and nothing is
+   submitted after it. *)
+Theorem C14_model_run_is_accepted : forall c w b tr g,
+  grun c (ginit w b) tr = Some g -> closed_phase (phase g) = true -> nokill tr = true ->
+  (forall t1 t2 t3 g2, tr = t1 ++ ESentinel :: t2 ++ ESentinel :: t3 -> nosent t1 = true -> nosent t2 = true ->
+     grun c (ginit w b) (t1 ++ ESentinel :: t2) = Some g2 ->
+     (forall j jb, getj g2 j = Some jb -> jph jb = TWaiting -> jstarted jb = true -> jret jb <> None) /\ ~ In ESubmit t3) ->
+  ok_C14 (List.length (jobs g)) (otrace c (ginit w b) tr) (vals_of g) (rows g) (fc c) 0 = None.
+Proof. exact model_run_is_accepted. Qed.
+Print Assumptions C14_model_run_is_accepted.
+
+(* the tie: an observed trace accepted by the extracted acceptor is (the observation of) a run of the global model *)
+Theorem C14_accepted_trace_is_model_run : forall c w b os g, accept c (ginit w b) os 0 = (g, None) ->
+  Inv c g /\ exists tr, grun c (ginit w b) tr = Some g /\ otrace c (ginit w b) tr = flat_map oobs os /\
+    (nokill tr = true -> forall j, jrun jinit (proj j (flat_map oobs os)) = Some (abs g j)).
+Proof. exact accepted_is_model_run. Qed.
+Print Assumptions C14_accepted_trace_is_model_run.
+
+(* ... and when the acceptor counted no finalisation against the order of the deadline, of the SHARP-deadline model (theorems (c)) *)
+Theorem C14_accepted_race_free_trace_is_strict_run : forall k w b os g,
+  accept (observed_cfg k) (ginit w b) os 0 = (g, None) -> races g = 0 ->
+  exists tr, grun (mkCfg true true k) (ginit w b) tr = Some g /\ otrace (mkCfg true true k) (ginit w b) tr = flat_map oobs os.
+Proof. exact accepted_race_free_is_strict. Qed.
+Print Assumptions C14_accepted_race_free_trace_is_strict_run.
+
+(* free workers + jobs holding one = num_workers, in every reachable state: never more run-functions in flight than workers *)
+Theorem C14_no_more_running_than_workers : forall c w b tr g,
+  grun c (ginit w b) tr = Some g ->
+  free g + sumf (fun jb => match jph jb with TWaiting | TCancelling => 1 | _ => 0 end) (jobs g) = w.
+Proof. exact workers_bound. Qed.
+Print Assumptions C14_no_more_running_than_workers.
+
+(* ---------- non-vacuity ---------- *)
+(* a complete strict run: 2 workers, search(timeout=): job 0 returns before the expiry (DONE), job 1 is running at it
+   (CANCELLED, value kept), job 2 is queued at it (started, told at once, CANCELLED); sentinels after the expiry *)
+Definition demo_cfg : cfg := mkCfg true true (-1).
+Definition demo_schedule : list ev :=
+  [ESubmit; ESubmit; ESentinel0; EGatherIn; EAcquire 0; EAcquire 1; EStart 0; EStart 1; EPoll 0; ERet 0 10; EFinish 0; ECollect 0; EGatherOut; ETest;
+   ESubmit; EGatherIn; EExpire; ETell 1; ESentinel; EPoll 1; ERet 1 11; EFinishC 1; EAcquire 2; ETell 2; EStart 2; ESentinel; EPoll 2; ERet 2 12; EFinishC 2;
+   ECollect 1; ECollect 2; EGatherOut; ETest; ECloseIn; ECloseOut; EReturn].
+
+Example C14_demo_run :
+  exists g, grun demo_cfg (ginit 2 (Some BSearch)) demo_schedule = Some g /\ phase g = PDone /\ nokill demo_schedule = true /\
+            timingb demo_cfg (ginit 2 (Some BSearch)) demo_schedule = true /\
+            rows g = [(0, DONE, 10%Z); (1, CANCELLED, 11%Z); (2, CANCELLED, 12%Z)] /\ stopped g = true /\ timed g = false /\
+            ok_C14 3 (otrace demo_cfg (ginit 2 (Some BSearch)) demo_schedule) (vals_of g) (rows g) (-1)%Z 0 = None.
+Proof. vm_compute. eexists. repeat split. Qed.
+
+(* the same behaviour as an OBSERVED trace is accepted; a second timed search() call on the same objects gets a fresh budget *)
+Example C14_demo_accept :
+  exists g, accept (observed_cfg (-1)) (ginit 1 (Some BSearch))
+    [OSubmitCall; OW 0 READY; OGatherIn; OW 0 RUNNING; OStart 0; OSent0; OPoll 0 RUNNING; OW 0 CANCELLING; OSent; OPoll 0 CANCELLING; ORet 0 7;
+     OW 0 CANCELLED; OFin 0; OSent; OCollected 0; OGatherOut; OCloseIn; OCloseOut; OReturn;
+     OAgain (Some BSearch); OSubmitCall; OW 1 READY; OGatherIn; OW 1 RUNNING; OStart 1; OSent0; ORet 1 8; OFin 1; OW 1 DONE; OCollected 1; OGatherOut;
+     OCloseIn; OCloseOut; OReturn] 0 = (g, None) /\
+    phase g = PDone /\ tables_agree 2 (rows g) [(0, CANCELLED, 7%Z); (1, DONE, 8%Z)] = true.
+Proof. vm_compute. eexists. repeat split. Qed.
+
+(* and it rejects: a submission after the stop test saw the exhausted budget (position 13, code 2) *)
+Example C14_demo_reject :
+  snd (accept (observed_cfg (-1)) (ginit 1 (Some BEval))
+    [OSubmitCall; OW 0 READY; OGatherIn; OW 0 RUNNING; OStart 0; OW 0 CANCELLING; OPoll 0 CANCELLING; ORet 0 7; OW 0 CANCELLED; OFin 0; OCollected 0;
+     OGatherOut; OSubmitCall; OW 1 READY] 0) = Some (13, 2).
 Proof. vm_compute. reflexivity. Qed.
